@@ -24,14 +24,28 @@ Proved for all trees and all arguments:
   element of a model whose root is in a file has a non-empty effective set (`C10_every_element_in_some_file`).
 NOT preserved by the library (known findings, so no theorem): `move_element_here` keeps the local sets of the moved
 element's descendants; `add_to_file` accepts a file already removed from the model; SHORT-NAME with a set of its own.
-Partial: "the text of a file contains exactly the elements attributed to it and loads on its own" and the exactness of
-`remove_file` with respect to index entries are decided by the oracle on the library (histories of kind `files`
-including `load`, and the merge scenario).
+* "the text produced for a file contains exactly the elements attributed to that file" (`Lemmas/SerFiles.lean`): `Model.view m f`
+  (`projFile`) is the view of file `f` written from the ATTRIBUTION side (an element is kept iff `f` lies in its effective
+  file set, recursively); the serializer's LOCAL test (`files.isEmpty || files.contains f`) writes exactly that view:
+  `C10_file_text_is_text_of_view` (for every tree, with the dropped elements replaced by empty text items, which are written
+  as nothing), `C10_file_text_is_text_of_view_exact` (the literal equation, under `ShapeOk`), `C10_serialize_writes_the_view`
+  (the whole `serialize` request of the driver).  The literal equation is FALSE without `ShapeOk`:
+  `C10_hollow_element_witness` — an element of the view whose content lies entirely in other files is written `<X>`,newline,`</X>`,
+  its view `<X/>` (same elements, another form of the empty tag; the library does the same, the `ser` requests are compared
+  byte for byte);
+* which elements are in the view: `C10_view_membership` (in every model with the invariant and unique ids: `t` is in the view
+  of `f` iff `f` is in `t`'s effective file set — the set `file_membership()` reports);
+* "every element of the model is written to at least one file": `C10_reachable_every_element_written` — in every state
+  reachable by any history of the core operations, every element of a model whose root is in some file occurs in the view
+  of one of the root's files; `C10_reachable_views_cover_exactly` (the views of the files together are the tree).
+Partial: "loads on its own" and the exactness of `remove_file` with respect to index entries are decided by the oracle on
+the library (histories of kind `files` including `load`, and the merge scenario).
 -/
 import AutosarVerif.Lemmas.Files
 import AutosarVerif.Lemmas.FileOps
 import AutosarVerif.Lemmas.Reachable
 import AutosarVerif.Model.ToySpec
+import AutosarVerif.Lemmas.SerFiles
 
 namespace AV.C10
 open AV.W
@@ -66,6 +80,44 @@ theorem C10_add_walk (S : Spec) (f : Nat) (its : Items) (path pe : List Nat) (ps
     ((addPath S f path pe ps its).2 = false → FilesOk pe (addPath S f path pe ps its).1) ∧
     ((addPath S f path pe ps its).2 = true → FilesOk (pe ++ [f]) (addPath S f path pe ps its).1) :=
   ⟨(addPath_ok S f its path pe ps h).1, fun hq => ((addPath_ok S f its path pe ps h).2 hq).1⟩
+
+/-! ### the text of a file = the text of the elements attributed to it -/
+
+/-- for EVERY tree: what `serialize` writes for file `f` (local test on each element) is the unfiltered text of the view of
+`f` (elements whose effective file set contains `f`), with an empty text item in the place of each dropped element -/
+theorem C10_file_text_is_text_of_view (S : Spec) (V : Env) (f : Nat) (its : Items) (pe : List Nat) (indent : Nat) (inMixed : Bool)
+    (hf : f ∈ pe) : serForest S V (some f) indent inMixed its = serForest S V none indent inMixed (projPad f pe its) :=
+  serForest_projPad S V f its pe indent inMixed hf
+theorem C10_padded_view_has_the_elements_of_the_view (f : Nat) (pe : List Nat) (its : Items) :
+    (projPad f pe its).ids = (projFile f pe its).ids := projPad_ids f pe its
+/-- the literal equation, where no element of the view has all of its content in other files -/
+theorem C10_file_text_is_text_of_view_exact (S : Spec) (V : Env) (f : Nat) (its : Items) (pe : List Nat) (indent : Nat)
+    (inMixed : Bool) (hf : f ∈ pe) (hs : ShapeOk S f pe its) :
+    serForest S V (some f) indent inMixed its = serForest S V none indent inMixed (projFile f pe its) :=
+  serForest_projFile S V f its pe indent inMixed hf hs
+/-- the whole `serialize` request as the driver answers it -/
+theorem C10_serialize_writes_the_view (S : Spec) (V : Env) (w : World) (f : Nat) :
+    opSerialize S V w f = opSerializeView S V projPad w f := opSerialize_eq_pad S V w f
+/-- negation witness for the literal equation without `ShapeOk` (the hollow element) -/
+theorem C10_hollow_element_witness :
+    FilesOk [5, 7] SerFilesEx.hollow ∧
+    serForest toySpec toyEnv (some 5) 0 true SerFilesEx.hollow ≠
+      serForest toySpec toyEnv none 0 true (projFile 5 [5, 7] SerFilesEx.hollow) := by
+  refine ⟨by simp [FilesOk, SerFilesEx.hollow, SerFilesEx.hdr, effOf], ?_⟩
+  decide
+/-- an element is in the view of `f` iff `f` is in its effective file set (what `file_membership()` reports) -/
+theorem C10_view_membership (m : Model) (f t : Nat) (c : List (Hdr × Items)) (hm : m.filesOk) (hn : m.rootItems.ids.Nodup)
+    (hc : m.rootItems.chain t = some c) : t ∈ (m.view f).ids ↔ f ∈ effective c := Model.mem_view_iff m f t c hm hn hc
+/-- in every reachable state every element is written to at least one file -/
+theorem C10_reachable_every_element_written (S : Spec) (V : Env) (rootAttrs : List (Nat × CDv)) (ops : List Op) (m : Model)
+    (hm : m ∈ (run S V rootAttrs ops).models) (hne : m.rootHdr.files ≠ []) (i : Nat) (hi : i ∈ m.rootItems.ids) :
+    ∃ f ∈ m.rootHdr.files, i ∈ (m.view f).ids := reachable_covered S V rootAttrs ops m hm hne i hi
+theorem C10_reachable_views_cover_exactly (S : Spec) (V : Env) (rootAttrs : List (Nat × CDv)) (ops : List Op) (m : Model)
+    (hm : m ∈ (run S V rootAttrs ops).models) (hne : m.rootHdr.files ≠ []) (i : Nat) :
+    i ∈ m.rootItems.ids ↔ ∃ f ∈ m.rootHdr.files, i ∈ (m.view f).ids := reachable_union S V rootAttrs ops m hm hne i
+/-- the view is a tree of its own: taking it twice changes nothing, and it satisfies the file invariant -/
+theorem C10_view_idempotent (f : Nat) (its : Items) (pe : List Nat) : projFile f pe (projFile f pe its) = projFile f pe its :=
+  projFile_idem f its pe
 
 /-! non-vacuity -/
 def hdr (id : Nat) (files : List Nat) : Hdr := { id := id, name := 0, ety := ⟨0, 0⟩, parent := .none, attrs := [], files := files, comment := none }
